@@ -63,9 +63,11 @@ type c10dScenario struct {
 	// status codes the reader uses on the FIRST connection (0 = success): in its SetProtocolVersionResponse
 	// (Connect fails with that status), its SetReaderConfigResponse (onConnect fails with it) and its
 	// CloseConnectionResponse (the Shutdown of resetConn / Stop fails with it)
-	SPVStatus   int `json:"spv_status"`
-	SRCStatus   int `json:"src_status"`
-	CloseStatus int `json:"close_status"`
+	// First1: payload of the first message of the FIRST connection only (later connections get First)
+	First1      string `json:"first1"`
+	SPVStatus   int    `json:"spv_status"`
+	SRCStatus   int    `json:"src_status"`
+	CloseStatus int    `json:"close_status"`
 	// Reconnect: after the reader closed the stream, wait for the device to dial again
 	Reconnect bool `json:"reconnect"`
 	// AbsOnly: do not run anything, only report what the library's decoder makes of the messages
@@ -159,7 +161,11 @@ func (r *c10dReader) serve() {
 
 func (r *c10dReader) handle(conn net.Conn, n int) {
 	defer conn.Close()
-	if err := r.write(conn, c10dMsg(1, 63, 0, r.first)); err != nil {
+	first := r.first
+	if n == 1 && r.sc.First1 != "" {
+		first, _ = hex.DecodeString(r.sc.First1)
+	}
+	if err := r.write(conn, c10dMsg(1, 63, 0, first)); err != nil {
 		return
 	}
 	ver := 1
@@ -211,7 +217,7 @@ func (r *c10dReader) handle(conn net.Conn, n int) {
 			default:
 				_ = r.write(conn, c10dMsg(ver, 13, id, c10dStatus(0)))
 			}
-			if n == 1 || r.sc.SPVStatus != 0 {
+			if n == 1 || r.sc.SPVStatus != 0 || r.sc.First1 != "" {
 				r.once.Do(func() { close(r.setup) })
 			}
 		case 14: // CloseConnection
